@@ -74,10 +74,31 @@ def sample_of(case, maxlines=40):
             "trace_excerpt": tr.abbreviate(case.run.trace, maxlines)}
 
 
-def run_checked(res, cases, variant, oracle, relevant, prefix, known_class=None, timeout=120, retry_watchdog=True):
+CHUNK = 2000        # (even: the two driving modes of one scenario are adjacent cases and must be judged together)
+
+
+def run_checked(res, cases, variant, oracle, relevant, prefix, known_class=None, timeout=120, retry_watchdog=True, post=None,
+                after_chunk=None):
     """execute cases, apply oracle(case) -> list[(key, detail)], fold into res.
     relevant(case) -> bool says whether the case contains events the property is about (counts as non-trivial).
-    known_class: dict profile-name -> finding key; any violation in such a scenario is attributed to that key."""
+    known_class: dict profile-name -> finding key; any violation in such a scenario is attributed to that key.
+    The cases are executed and judged in chunks, and the trace of a judged case is dropped (a thorough run holds tens of
+    thousands of traces: gigabytes); post(case) is called right after a case was judged and after_chunk(list) after each chunk,
+    while the traces are still there."""
+    for k in range(0, len(cases), CHUNK):
+        chunk = cases[k:k + CHUNK]
+        _run_chunk(res, chunk, variant, oracle, relevant, prefix, known_class, timeout, retry_watchdog, post)
+        if after_chunk is not None:
+            after_chunk(chunk)
+        for c in chunk:
+            if c.run is not None:
+                c.run.trace = ""
+                c.run.text = ""
+            c.recs = None
+    return cases
+
+
+def _run_chunk(res, cases, variant, oracle, relevant, prefix, known_class, timeout, retry_watchdog, post):
     execute(cases, variant, timeout)
     retry = []
     for c in cases:
@@ -122,6 +143,8 @@ def run_checked(res, cases, variant, oracle, relevant, prefix, known_class=None,
         for key, n in per_key.items():
             if n > 3:
                 res.count("further_violations_of_a_key_in_the_same_case", n - 3)
+        if post is not None and o == "ok":
+            post(c)
     return cases
 
 
